@@ -1,6 +1,7 @@
 """C14 - rexpy results depend only on the multiset of examples and the seed. (DESIGN 5/C14)"""
 import hashlib
 import json
+import os
 import pickle
 import random
 
@@ -54,6 +55,10 @@ def run(chk):
             base = ['%03d' % rnd.randint(0, 999) for _ in range(rnd.randint(12, 18))] + [rnd.choice(['x7q', 'ab1', 'Z99', '1é2'])]
             rnd.shuffle(base)
             ex = base
+        if rnd.random() < 0.3:
+            kw['max_patterns'] = rnd.randint(1, 3)
+        if rnd.random() < 0.15:
+            kw['min_strings_per_pattern'] = 2
         seeded = kw.get('seed') is not None
         doall = (sizekw or {}).get('do_all', 100)
         nd = len(set(e for e in ex if e is not None))
@@ -68,6 +73,11 @@ def run(chk):
             variants.append(('permute', perm))
             variants.append(('reverse', list(reversed(ex))))
             variants.append(('dict', as_dict(ex)))
+            import collections
+            variants.append(('counter', collections.Counter(as_dict(ex))))
+            dd = collections.defaultdict(int)
+            dd.update(as_dict(ex))
+            variants.append(('defaultdict', dd))
             prune = kw.get('max_patterns') is not None or kw.get('min_strings_per_pattern', 1) > 1
             if not prune:
                 variants.append(('double', list(ex) + [e for e in ex if e is not None][:max(1, len(ex) // 2)]))
@@ -146,6 +156,39 @@ def run(chk):
                        'seeded': kw.get('seed') is not None, 'prngsame': ok, 'sampling': False})
         detail[tid] = {'examples': ex, 'options': {k: x for k, x in kw.items() if k != 'size'}, 'size': sizekw,
                        'first': first['rex'], 'second': second['rex']}
+        tid += 1
+    # history, stronger: the same call in a FRESH interpreter (no earlier rexpy call at all, whatever caches the module keeps)
+    import subprocess
+    from concurrent.futures import ThreadPoolExecutor
+    fresh_cases = []
+    for i in range(240 if thorough else 40):
+        ex = [e for e in rx.rich_examples(rnd) if e is not None]
+        kw, sizekw = rx.rich_options(rnd)
+        if sizekw is not None and kw.get('seed') is None:
+            continue
+        if i % 2 == 0:
+            ex = rnd.choice([['tel 0131 496 0091', 'tel 0141 555 0123', 'tel 0151 496 0555'], ['a b-1', 'a b-2'], ['x: 1', 'x: 22', 'x: 333']])   # constant fragments with blanks
+            kw.pop('strip', None)
+        here, ok = call(list(ex), kw)
+        if here['raised'] != 'none':
+            continue
+        fresh_cases.append((ex, {k: v for k, v in kw.items() if k != 'size'}, sizekw, here['rex'], ok))
+    env = common.child_env()
+
+    def fresh(c):
+        p_ = subprocess.run([common.PY, '-W', 'ignore', os.path.join(common.VERIF, 'harness', 'rex_fresh.py')], env=env,
+                            input=json.dumps({'examples': c[0], 'kw': c[1], 'size': c[2]}), text=True, capture_output=True, timeout=300)
+        try:
+            return json.loads(p_.stdout)
+        except ValueError:
+            return {'rex': None, 'raised': 'no output: ' + p_.stderr[-200:]}
+    with ThreadPoolExecutor(14) as pool_:
+        fresh_results = list(pool_.map(fresh, fresh_cases))
+    for c, fr in zip(fresh_cases, fresh_results):
+        events.append({'tid': tid, 'ev': 'Pair', 'kind': 'freshprocess', 'raised': 'none' if fr['raised'] == 'none' else str(fr['raised'])[:40],
+                       'same': fr['rex'] == c[3], 'seeded': c[1].get('seed') is not None, 'prngsame': c[4], 'sampling': False})
+        detail[tid] = {'examples': c[0], 'options': c[1], 'size': c[2], 'first': c[3], 'second': fr['rex'],
+                       'note': 'first: after the history of this whole check; second: first call of a fresh interpreter'}
         tid += 1
     res, rejected = trace.validate('Trace_RexResult', 'Trace_RexResult.cfg', events, name='rex_pairs', workers=4)
     chk.add_tlc(res)
